@@ -55,6 +55,10 @@ C16_Failing(h) ==
        ELSE IF Path(h[i]) = "copy" THEN "identityForSameType"
        ELSE "jsonRoundTrip") : i \in bad}
      \cup (IF \E i \in 1..Len(h) : h[i].ev = "bindagree" /\ ~h[i].ok THEN {"carriersAgree"} ELSE {})
+     \* a second Bind of the same key after the caller changed the referenced value in place (no store write in
+     \* between): still the JSON round trip of the value as it is NOW
+     \cup (IF \E i \in 1..Len(h) : h[i].ev = "bindalias" /\ (h[i].panicked \/ h[i].iserr # h[i].referr \/ (~h[i].referr /\ ~h[i].desteq))
+           THEN {"jsonRoundTripOfCurrentValue"} ELSE {})
 C16_BadCalls(h) == {<<h[i].carrier, h[i].dest, h[i].ref, h[i].val>> : i \in {j \in 1..Len(h) : h[j].ev = "bind" /\ ~CallOK(h[j])}}
 
 VARIABLE cell
